@@ -65,6 +65,25 @@ Example C19_same_schedule_now :
   all_doneb w = true /\ objects_of 7 w = [0] /\ visible_tracks 7 w = [10; 11].
 Proof. vm_compute. repeat split. Qed.
 
+(** C19_registration: channel.addTrData (one critical section of ch.mu: scan for a video track, master
+    decision, insertion) - for every set of concurrent registrations and every schedule, whenever a
+    video track is registered the master track is a registered video track, as in every sequential
+    order. The racer checks the same on the real code (final masterTrName / trIDs / trDatas keys
+    of concurrent registrations must be what some sequential order gives). *)
+Theorem C19_registration_master_video : forall reqs sched, master_ok (rexec true (rinit reqs) sched).
+Proof. exact registration_master_video. Qed.
+Print Assumptions C19_registration_master_video.
+
+(** why the single critical section matters: with the scan in an earlier critical section than the
+    update (not the code) audio scans, video registers, audio updates, and the master is the audio track *)
+Theorem C19_split_registration_refuted :
+  exists sched,
+    let w := rexec false (rinit [(1, true); (2, false)]) sched in
+    rw_tbl w = [(1, true); (2, false)] /\ rw_master w = Some 2 /\
+    map r_pc (rw_threads w) = [RDone; RDone].
+Proof. exact split_registration_witness. Qed.
+Print Assumptions C19_split_registration_refuted.
+
 (** (iii) C19_lockset on the regenerated tables: no unprotected conflicting pair is left in Receiver
     (streams under Receiver.mu since 575415d), channel (trDatas / masterTrName through accessors under
     ch.mu since 02a73b9, the MPD and startTime under ch.mpdMu since b9f2d4d, the master values under
